@@ -58,12 +58,12 @@ theorem unflagged_writers_exact :
     pre-checks, then `Snapshot`, then account creation / transfer, `run`, `RevertToSnapshot` under
     the recorded condition; `create` and `AuthCall` bump a nonce before their snapshot -/
 theorem frame_order_as_modelled : frameSeq = [
-  ("Call", ["if(evm.depth > int(CallCreateDepth))", "if(value.Sign() != 0 && !evm.Context.CanTransfer(evm.StateDB, caller.Address(), value))", "Snapshot", "precompile", "Exist", "CreateAccount", "Transfer", "RunPrecompiledContract", "GetCode", "GetCodeHash", "run(readOnly=false)", "RevertToSnapshot[err != nil]"]),
-  ("CallCode", ["if(evm.depth > int(CallCreateDepth))", "if(!evm.Context.CanTransfer(evm.StateDB, caller.Address(), value))", "Snapshot", "precompile", "RunPrecompiledContract", "GetCodeHash", "GetCode", "run(readOnly=false)", "RevertToSnapshot[err != nil]"]),
-  ("DelegateCall", ["if(evm.depth > int(CallCreateDepth))", "Snapshot", "precompile", "RunPrecompiledContract", "GetCodeHash", "GetCode", "run(readOnly=false)", "RevertToSnapshot[err != nil]"]),
-  ("StaticCall", ["if(evm.depth > int(CallCreateDepth))", "Snapshot", "AddBalance(addr,big0)", "precompile", "RunPrecompiledContract", "GetCodeHash", "GetCode", "run(readOnly=true)", "RevertToSnapshot[err != nil]"]),
+  ("Call", ["if(evm.depth > int(CallCreateDepth))", "if(value.Sign() != 0 && !evm.Context.CanTransfer(evm.StateDB, caller.Address(), value))", "Snapshot", "Exist", "CreateAccount", "Transfer", "RunPrecompiledContract", "GetCode", "GetCodeHash", "run(readOnly=false)", "RevertToSnapshot[err != nil]"]),
+  ("CallCode", ["if(evm.depth > int(CallCreateDepth))", "if(!evm.Context.CanTransfer(evm.StateDB, caller.Address(), value))", "Snapshot", "RunPrecompiledContract", "GetCodeHash", "GetCode", "run(readOnly=false)", "RevertToSnapshot[err != nil]"]),
+  ("DelegateCall", ["if(evm.depth > int(CallCreateDepth))", "Snapshot", "RunPrecompiledContract", "GetCodeHash", "GetCode", "run(readOnly=false)", "RevertToSnapshot[err != nil]"]),
+  ("StaticCall", ["if(evm.depth > int(CallCreateDepth))", "Snapshot", "AddBalance(addr,big0)", "RunPrecompiledContract", "GetCodeHash", "GetCode", "run(readOnly=true)", "RevertToSnapshot[err != nil]"]),
   ("create", ["GetData", "if(evm.depth > int(CallCreateDepth))", "if(!evm.CanTransfer(evm.StateDB, caller.Address(), value))", "GetNonce", "SetNonce(caller.Address(),nonce + 1)[!common.IsProposal006() || common.IsProposal007()]", "AddAddressToAccessList", "GetCodeHash", "GetNonce", "Snapshot", "CreateAccount", "SetNonce(address,1)", "Transfer", "run(readOnly=false)", "UseGas", "SetCode", "RevertToSnapshot[maxCodeSizeExceeded || (err != nil && err != ErrCodeStoreOutOfGas)]", "UseGas"]),
-  ("AuthCall", ["if(evm.depth > int(CallCreateDepth))", "if(value.Sign() != 0 && !evm.Context.CanTransfer(evm.StateDB, sponsor, value))", "GetNonce", "SetNonce(caller.Address(),nonce + 1)", "Snapshot", "precompile", "Exist", "CreateAccount", "Transfer", "RunPrecompiledContract", "GetCode", "GetCodeHash", "run(readOnly=false)", "RevertToSnapshot[err != nil]"])
+  ("AuthCall", ["if(evm.depth > int(CallCreateDepth))", "if(value.Sign() != 0 && !evm.Context.CanTransfer(evm.StateDB, sponsor, value))", "GetNonce", "SetNonce(caller.Address(),nonce + 1)", "Snapshot", "Exist", "CreateAccount", "Transfer", "RunPrecompiledContract", "GetCode", "GetCodeHash", "run(readOnly=false)", "RevertToSnapshot[err != nil]"])
 ] := by decide
 
 theorem create_revert_condition : createRevertCond = "maxCodeSizeExceeded || (err != nil && err != ErrCodeStoreOutOfGas)" := by decide
